@@ -18,11 +18,24 @@ Two halves (DESIGN.md §6 C01, notes/C01.md):
     the disassembly (see notes/C01.md, "division operands").
 
 A pair of secrets with different traces is a VIOLATION; the replay file names the operation, the two
-inputs and the first differing event with its symbolised source location.  Findings listed in
-known_findings.json (properties: ["C01"]) carry an abstraction phi of the secret that the trace of the
-named operations is known to depend on: the check then demands equality for all pairs with equal phi
-(so any NEW dependence is still a violation) and prints a KNOWN-FINDING line when the recorded
-dependence is actually observed.
+inputs and the first differing event with its symbolised source location (when the traces part inside libc's
+mem* routines: the call site).  `--replay FILE` re-runs exactly that pair in one process.
+
+Known findings (known_findings.json, properties: ["C01"]):
+  classifier c01_phi       ops = ["operation" | "operation/limb counts"], phi = abstraction of the secret operands the
+                           trace of these operations is known to depend on (atoms: see phi_eval).  The check demands
+                           equal traces for all jobs with equal phi — any NEW dependence is still a violation — adds
+                           fresh secrets with the same phi to every such group, and prints `KNOWN-FINDING:` when two
+                           phi classes really differ.
+  classifier c01_div_site  ops + site_re: a hardware div/idiv site (matched on its inlined source frames) that these
+                           non-vartime operations are known to execute.  Any other executed division is a violation.
+Observer artefacts (valgrind translates `bt reg,reg` through a byte of stack) are filtered by instruction address
+before a difference counts (artefact_sites / confirm).
+
+Exit codes: 0 no unlisted violation · 1 VIOLATION line(s) printed · 2 the trace crate does not build against the
+tree · 3 machinery error (incomplete lackey run, unknown operation, insensitive observer).
+Maintenance switches: --only REGEX, --skip-lean (development), --measure-costs (rewrite trace/costs.json),
+C01_IGNORE_FINDINGS=1 (treat every recorded leak as a violation again), C01_MAX_REPLAYS=N.
 """
 import argparse, concurrent.futures as cf, hashlib, json, os, random, re, subprocess, sys, time
 
